@@ -122,3 +122,19 @@ Theorem C13_fresh_instance_defaults : forall st, RInv st ->
   snd (api st1 (CCall id (GetSw ErrorString))) = OInt 1 /\ snd (api st1 (CCall id (GetSw OutputFile))) = OInt 0.
 Proof. intros st H. pose proof (fresh_instance_defaults st H) as D. cbv zeta in D. cbv zeta. tauto. Qed.
 Print Assumptions C13_fresh_instance_defaults.
+
+(** a run gives a defined SELECTED_OUTPUT n its default file name unless a non-empty one is stored;
+    a successful database load resets the per-user-number switches and the current number only *)
+Theorem C13_run_defines_default_name : forall i n ns, In n ns -> alookup n (i_seln i) = None ->
+  exists s, alookup n (i_seln (fst (istep i (RunDefines ns)))) = Some s /\ s = sel_default_name (i_id i) n.
+Proof. exact run_defines_default_name. Qed.
+Theorem C13_run_defines_keeps_set_name : forall i n ns str, str <> EmptyString -> alookup n (i_seln i) = Some str ->
+  alookup n (i_seln (fst (istep i (RunDefines ns)))) = Some str.
+Proof. exact run_defines_keeps_set_name. Qed.
+Theorem C13_load_resets_per_number_switches : forall i, let i' := fst (istep i Load) in
+  i_cur i' = 1%Z /\ i_self i' = [(1%Z, false)] /\ i_sels i' = [(1%Z, false)] /\ i_id i' = i_id i /\
+  i_seln i' = i_seln i /\ (forall s, i_sw i' s = i_sw i s) /\ (forall n, i_name i' n = i_name i n).
+Proof. exact load_resets_per_number_switches. Qed.
+Print Assumptions C13_run_defines_default_name.
+Print Assumptions C13_run_defines_keeps_set_name.
+Print Assumptions C13_load_resets_per_number_switches.
